@@ -149,6 +149,65 @@ def h_callback_history(ctx, steps):
     return " ".join(names)
 
 
+def h_callback_reentrant(ctx, nsubs):
+    """A subscriber changes the registry from inside its own callback while report 1 is being
+    delivered (unregisters itself, unregisters another subscriber, or registers a new one); report 2
+    follows.  Delivery to everybody not involved must be unaffected, nothing may raise, and report 2
+    must follow the new registry."""
+    parent = object()
+    cb = H._callback(parent)
+    calls, handles = {}, {}
+    actor = ctx.fresh_choice("actor", nsubs)
+    action = ctx.fresh_choice("action", 3)            # 0 leave itself, 1 remove another, 2 add a new one
+    victim = (actor + 1 + ctx.fresh_choice("victim", nsubs - 1)) % nsubs if action == 1 and nsubs > 1 else None
+    if action == 1 and victim is None:
+        return "n/a"
+    done = []
+
+    def mk(k):
+        def f(par, *a):
+            calls[k].append(a)
+            if k == actor and not done:
+                done.append(1)
+                if action == 0:
+                    handles[k].unregister()
+                elif action == 1:
+                    handles[victim].unregister()
+                else:
+                    calls["new"] = []
+                    handles["new"] = cb.register(lambda par, *a: calls["new"].append(a))
+        return f
+    for k in range(nsubs):
+        calls[k] = []
+        handles[k] = cb.register(mk(k))
+
+    async def main(loop):
+        cb._invoke("r", 1)
+        await vloop.settle(3)
+        cb._invoke("r", 2)
+        await vloop.settle(3)
+    st, r = call(vloop.run, main)
+    tag = "callbacks-reentrant"
+    ctx.prove(st == "ok", "delivery raised %r when a subscriber changed the registry from its callback" % (r,),
+              key=tag + "/raised:" + type(r).__name__)
+    both = [("r", 1), ("r", 2)]
+    for k in range(nsubs):
+        if k == actor and action == 0:
+            ctx.prove(calls[k] == [("r", 1)], "self-unregistered subscriber got %r" % (calls[k],),
+                      key=tag + "/self-leave")
+        elif k == victim:
+            # whether report 1 still reaches a subscriber removed during its delivery is not specified
+            ctx.prove(calls[k] in ([], [("r", 1)]), "removed subscriber got %r" % (calls[k],),
+                      key=tag + "/removed")
+        else:
+            ctx.prove(calls[k] == both, "uninvolved subscriber %d got %r (actor %d, action %d)"
+                      % (k, calls[k], actor, action), key=tag + "/uninvolved")
+    if action == 2:
+        ctx.prove(calls.get("new") in ([("r", 2)], both), "subscriber added during delivery got %r"
+                  % (calls.get("new"),), key=tag + "/joined")
+    return "actor%d-action%d" % (actor, action)
+
+
 # ---------------------------------------------------------------------------------------------
 # (2) Tridonic watcher
 
@@ -383,6 +442,7 @@ def cases(tier):
     for which in ("luba", "sci"):
         cs.append(Case("%s-subscriber-history" % which, h_subscriber_history, {"which": which, "steps": nsteps}))
     cs.append(Case("callback-history", h_callback_history, {"steps": nsteps}))
+    cs.append(Case("callback-reentrant", h_callback_reentrant, {"nsubs": 3 if tier == "quick" else 4}))
     inst = rigs.install_tridonic_structs
     if tier == "quick":
         for k1 in KINDS:
